@@ -1,5 +1,6 @@
 import AsynqModel.Sexp
 import AsynqModel.Lib.Dedup
+import AsynqModel.Lib.DedupEq
 /-! driver glue for mode `dedup` (property C12) -/
 namespace AsynqModel.Drv.Dedup
 open AsynqModel AsynqModel.Dedup
@@ -95,6 +96,16 @@ def isDeco : Sexp → Bool
   | .list (.atom "deco" :: _) => true
   | _ => false
 
+def isEqv : Sexp → Bool
+  | .list (.atom "eqv" :: _) => true
+  | _ => false
+
+/-- `(eqv (<instance token> <representative of its == class>) ...)`: the receiver instances of the case that are `==` to
+    another, distinct instance (a class with value equality); no item = instances compare by identity -/
+def eqv? : Sexp → Option Eqv
+  | .list (.atom "eqv" :: ps) => ps.mapM pair?
+  | _ => none
+
 def isKg : Sexp → Bool
   | .list (.atom "kg" :: _) => true
   | _ => false
@@ -137,9 +148,12 @@ def kgMismatch (ks : List (Nat × KeyFn)) (probes : List KgProbe) : Option KgPro
 def handle (id : Nat) (hdr : List Sexp) (body : List Sexp) : String :=
   let decos := hdr.filter isDeco
   let kgs := hdr.filter isKg
-  let hdr := hdr.filter (fun x => !isDeco x && !isKg x)
-  match hdr.mapM fn?, body.mapM obs?, decos.mapM deco?, kgs.mapM kg? with
-  | some fns, some impl, some ds, some probes =>
+  let eqvs := hdr.filter isEqv
+  let hdr := hdr.filter (fun x => !isDeco x && !isKg x && !isEqv x)
+  match hdr.mapM fn?, body.mapM obs?, decos.mapM deco?, kgs.mapM kg?, eqvs.mapM eqv? with
+  | some fns, some impl, some ds, some probes, some es =>
+    -- which receiver instances are == to each other is an input of the model (Lib/DedupEq.lean): the table is keyed up to ==
+    let e : Eqv := es.flatten
     -- the decoration phase: the model's `decorateAll` on the applications of the case, compared with what the keygetter
     -- of every REAL decorated function answers for the probe arguments
     let dk : Option (List (Nat × KeyFn)) :=
@@ -151,12 +165,12 @@ def handle (id : Nat) (hdr : List Sexp) (body : List Sexp) : String :=
     | none => s!"R {id} CORR=diff SPEC=ok SPECM=ok | decoration phase: a function is not decorated exactly once, or by an unknown object"
     | some ks =>
     let ops := impl.map (·.op)
-    let model := run fns St.init ops
+    let model := runE fns e St.init ops
     let kgd : Option String := (kgMismatch ks probes).map fun p =>
       s!"decoration phase: the keygetter of function {p.fn} answers {repr p.ans} for args {repr p.args} kw {repr p.kw}; the model's decoration phase gives it the keygetter of its own signature"
     let corr := firstDiff model impl
-    let spec := specClause fns impl
-    let specm := specClause fns model
+    let spec := specClauseE fns e impl
+    let specm := specClauseE fns e model
     let c := match kgd, corr with | none, none => "ok" | _, _ => "diff"
     let d := match kgd, corr with
       | some m, _ => m.replace "\n" " "
@@ -164,6 +178,6 @@ def handle (id : Nat) (hdr : List Sexp) (body : List Sexp) : String :=
       | none, none => ""
     let f (s : String) := if s == "ok" then "ok" else "fail:" ++ s
     s!"R {id} CORR={c} SPEC={f spec} SPECM={f specm} | {d}"
-  | _, _, _, _ => s!"R {id} CORR=diff SPEC=ok SPECM=ok | unparsable case"
+  | _, _, _, _, _ => s!"R {id} CORR=diff SPEC=ok SPECM=ok | unparsable case"
 
 end AsynqModel.Drv.Dedup
